@@ -211,6 +211,8 @@ class Component( ComponentLevel7 ):
     top._dsl.all_named_objects |= added_components
     top._dsl.all_named_objects |= added_signals
     top._dsl.all_named_objects |= added_method_ports
+    # interfaces and any other named object under obj
+    top._dsl.all_named_objects |= obj._collect_all_single()
 
     for c in added_components:
       top._collect_vars( c )
@@ -312,6 +314,8 @@ class Component( ComponentLevel7 ):
 
       removed_connectables = removed_signals | removed_method_ports
       top._dsl.all_named_objects -= removed_connectables
+      # interfaces and any other named object under foo
+      top._dsl.all_named_objects -= foo._collect_all_single()
 
       removed_consts = set()
       if isinstance( foo, Placeholder ):
